@@ -136,7 +136,7 @@ func c03verify(c *Ctx, rule, fnName, digestFn, payloadField string, isHeartbeat 
 				accs = append(accs, accept{i, "call:SetHeartbeat"})
 			}
 		}
-		if r, ok := i.(*ssa.Return); ok && len(r.Results) == 2 && !definitelyNonNilErr(r.Results[1]) {
+		if r, ok := i.(*ssa.Return); ok && len(r.Results) == 2 && !definitelyNonNilErr(r.Results[1], r) {
 			if facts.Reachable(r.Block(), base) {
 				accs = append(accs, accept{i, "return:accept"})
 			}
@@ -288,7 +288,15 @@ func unmarshalTargetOf(fn *ssa.Function, v ssa.Value) string {
 }
 
 // definitelyNonNilErr: the error result is a freshly constructed error.
-func definitelyNonNilErr(v ssa.Value) bool {
+func definitelyNonNilErr(v ssa.Value, at ...ssa.Instruction) bool {
+	v = facts.ThreadedValue(v)
+	// a variable returned under a dominating `v != nil` test (`if err != nil { return nil, err }`)
+	if len(at) == 1 {
+		want := facts.CmpAtom(facts.Term(v), token.NEQ, "nil")
+		if facts.HasAtom(facts.At(at[0], nil), want) {
+			return true
+		}
+	}
 	if cl, ok := strip(v).(*ssa.Call); ok {
 		switch facts.CalleeName(&cl.Call) {
 		case "fmt.Errorf", "errors.New":
